@@ -16,6 +16,45 @@ const GUARD_BYTE: u8 = 0xA5;
 thread_local! {
     /// (base, total bytes, align) of released blocks, still poisoned
     static QUARANTINE: RefCell<Vec<(usize, usize, usize)>> = RefCell::new(Vec::new());
+    /// (pointer, bytes, element size) of the blocks currently owned by some `RelocMem`
+    static LIVE: RefCell<Vec<(usize, usize, usize)>> = RefCell::new(Vec::new());
+}
+
+fn live_add(p: *mut u8, bytes: usize, elem: usize) {
+    let _ns = reg::NoScope::new();
+    LIVE.with(|l| l.borrow_mut().push((p as usize, bytes, elem)));
+}
+fn live_del(p: *mut u8) {
+    let _ns = reg::NoScope::new();
+    LIVE.with(|l| l.borrow_mut().retain(|e| e.0 != p as usize));
+}
+/// after every step: no slot of a live block may consist of guard bytes (an over-read past the
+/// capacity that was copied into the block) or of released-memory poison (a read through a stale
+/// pointer). Element sizes below 2 are skipped: one byte could be a legitimate identity.
+pub fn reset_live() { let _ns = reg::NoScope::new(); LIVE.with(|l| l.borrow_mut().clear()); }
+pub fn scan_live() {
+    LIVE.with(|l| {
+        for &(p, bytes, elem) in l.borrow().iter() {
+            if elem < 2 { continue; }
+            let b = p as *const u8;
+            let mut k = 0;
+            let lim = bytes.min(1 << 16);
+            while k + elem <= lim {
+                unsafe {
+                    let first = *b.add(k);
+                    if first == GUARD_BYTE || first == POISON_FREE {
+                        let mut all = true;
+                        for j in 1..elem { if *b.add(k + j) != first { all = false; break; } }
+                        if all {
+                            reg::log(reg::EV_BAD, if first == GUARD_BYTE { 22 } else { 23 }, (k / elem) as u64, 0);
+                            return;
+                        }
+                    }
+                }
+                k += elem;
+            }
+        }
+    });
 }
 
 fn guard_for(align: usize) -> usize { GUARD.max(align) }
@@ -112,8 +151,10 @@ impl MemResizable for RelocMem {
                      else { raw_alloc(bytes, self.layout.align()) };
             if old_bytes != 0 {
                 std::ptr::copy_nonoverlapping(self.ptr, np, old_bytes.min(bytes));
+                live_del(self.ptr);
                 raw_release(self.ptr, old_bytes, self.layout.align());
             }
+            if bytes != 0 { live_add(np, bytes, self.layout.size()); }
             self.ptr = np;
         }
         self.size = new_size;
@@ -124,6 +165,7 @@ impl Drop for RelocMem {
         reg::log(reg::EV_MD, 0, 0, 0);
         let old_bytes = self.layout.size() * self.size;
         if old_bytes != 0 {
+            live_del(self.ptr);
             unsafe { raw_release(self.ptr, old_bytes, self.layout.align()); }
         }
         self.size = 0;
